@@ -13,7 +13,7 @@ use crate::refdec::{ref_decode, walk, DecStop};
 use crate::rng::Rng;
 use crate::runner::{Check, ExecOk, Fail, Fp, Stats, Tier};
 use crate::spec::SpecTable;
-use crate::val::{TagV, Val};
+use crate::val::{WErrV};
 use crate::wcases::{self, PresentOpts};
 
 pub struct C10;
@@ -27,6 +27,73 @@ pub struct Case {
 
 fn describe(ops: &[WOp]) -> String {
     ops.iter().map(|o| o.short()).collect::<Vec<_>>().join(" ")
+}
+
+/// Histories through a sink that fails. The properties say nothing about the state of the output after an
+/// I/O error (C19 excludes them by name), so the oracle is deliberately narrow: `Interrupted` is invisible;
+/// everything up to the first real failure is exactly the fault-free run; the failure is reported by the call
+/// during which it happened, carrying the sink's own error; nothing panics afterwards.
+fn exec_faulted(c: &Case, st: &mut Stats) -> Result<ExecOk, Fail> {
+    let clean = WScript { faults: vec![], flush_faults: vec![], ..c.wscript.clone() };
+    let w0 = run_writer(&c.spec, &c.ops, &clean, true);
+    if w0.panic.is_some() {
+        st.inc("skipped_fault_free_run_panics");
+        return Ok(ExecOk { nontrivial: false });
+    }
+    let w = run_writer(&c.spec, &c.ops, &c.wscript, true);
+    st.add("writer_calls", c.ops.len() as u64 + 1);
+    st.add("sink_write_calls", w.write_calls as u64);
+    st.add("fault_interrupted_writes_delivered", w.interrupted as u64);
+    st.inc("sink_fault_histories");
+    if let Some(p) = &w.panic {
+        fail!("writer-panic-after-sink-error", "{}
+ calls: {}
+ sink script: {}", p, describe(&c.ops), c.wscript.to_j());
+    }
+    let Some(f) = w.failures.first() else {
+        // only Interrupted (or nothing) was delivered: the run must be indistinguishable from the fault-free one
+        if w.results != w0.results || w.into_inner != w0.into_inner || w.out != w0.out {
+            fail!("interrupted-write-visible", "with Interrupted returned by {} write call(s) the results or the output differ from the fault-free run ({} vs {} bytes)
+ calls: {}
+ sink script: {}", w.interrupted, w.out.len(), w0.out.len(), describe(&c.ops), c.wscript.to_j());
+        }
+        if w.interrupted > 0 {
+            st.inc("probe_interrupted_write_retried");
+        }
+        return Ok(ExecOk { nontrivial: w.interrupted > 0 });
+    };
+    st.inc(match (f.in_flush, f.token) {
+        (true, _) => "fault_flush_error_delivered",
+        (false, 0) => "fault_write_zero_delivered",
+        _ => "fault_write_error_delivered",
+    });
+    // the call during which the sink failed (ops.len() = the final flush of into_inner)
+    let at = (0..c.ops.len()).find(|i| w.failures_after[*i] >= 1).unwrap_or(c.ops.len());
+    for i in 0..at {
+        if w.results[i] != w0.results[i] || w.delivered_after[i] != w0.delivered_after[i] {
+            fail!("differs-before-sink-error", "call {} ({}) happened before the sink failed, yet gives {:?} / {} bytes delivered instead of {:?} / {}
+ calls: {}
+ sink script: {}", i, c.ops[i].short(), w.results[i], w.delivered_after[i], w0.results[i], w0.delivered_after[i], describe(&c.ops), c.wscript.to_j());
+        }
+    }
+    if f.out_len > w0.out.len() || w.out.len() < f.out_len || w.out[..f.out_len] != w0.out[..f.out_len] {
+        fail!("altered-before-sink-error", "the {} bytes the sink held when it failed are not a prefix of the fault-free output
+ calls: {}
+ sink script: {}", f.out_len, describe(&c.ops), c.wscript.to_j());
+    }
+    let got = if at < c.ops.len() { w.results[at].clone() } else { w.into_inner.clone().unwrap_or(Ok(())) };
+    match &got {
+        Err(WErrV::Write { kind, token }) if *kind == f.kind && *token == f.token => {
+            st.inc("probe_sink_error_carried");
+        }
+        other => fail!("sink-error-not-reported", "the sink failed ({} #{}) during call {} ({}), which returned {:?}
+ calls: {}
+ sink script: {}", f.kind, f.token, at, if at < c.ops.len() { c.ops[at].short() } else { "final flush".into() }, other, describe(&c.ops), c.wscript.to_j()),
+    }
+    if at < c.ops.len() {
+        st.inc("probe_calls_continued_after_sink_error");
+    }
+    Ok(ExecOk { nontrivial: true })
 }
 
 impl Check for C10 {
@@ -99,10 +166,37 @@ impl Check for C10 {
             }
             ops = merged;
         }
-        Case { spec, ops, wscript: io::gen_wscript(&mut rng) }
+        let mut wscript = io::gen_wscript(&mut rng);
+        // sink faults (a separate sub-batch with its own, narrower oracle): one history in six
+        if rng.chance(1, 6) {
+            let near = |rng: &mut Rng| if rng.chance(2, 3) { rng.range(0, 6) } else { rng.range(0, 40) };
+            match rng.below(5) {
+                0 => {
+                    for _ in 0..rng.range(1, 3) {
+                        let at = near(&mut rng);
+                        wscript.faults.push((at, io::WFault::Interrupted));
+                    }
+                }
+                1 | 2 => {
+                    if rng.chance(1, 3) {
+                        wscript.faults.push((near(&mut rng), io::WFault::Interrupted));
+                    }
+                    wscript.faults.push((near(&mut rng), io::WFault::Hard(rng.below(4) as u8)));
+                }
+                3 => wscript.faults.push((near(&mut rng), io::WFault::Zero)),
+                _ => wscript.flush_faults.push((rng.range(0, 4), rng.below(4) as u8)),
+            }
+            // one call index, one fault
+            wscript.faults.sort_by_key(|f| f.0);
+            wscript.faults.dedup_by_key(|f| f.0);
+        }
+        Case { spec, ops, wscript }
     }
 
     fn exec(&self, c: &Case, st: &mut Stats) -> Result<ExecOk, Fail> {
+        if !c.wscript.faults.is_empty() || !c.wscript.flush_faults.is_empty() {
+            return exec_faulted(c, st);
+        }
         let w = run_writer(&c.spec, &c.ops, &c.wscript, true);
         st.add("writer_calls", c.ops.len() as u64 + 1);
         st.add("sink_write_calls", w.write_calls as u64);
@@ -241,6 +335,12 @@ impl Check for C10 {
     fn fingerprint(&self, c: &Case) -> u64 {
         let mut f = Fp::default();
         wcases::fp_ops(&mut f, &c.ops);
+        for (i, k) in &c.wscript.faults {
+            f.u(*i as u64 | 1 << 42).s(&format!("{:?}", k));
+        }
+        for (i, k) in &c.wscript.flush_faults {
+            f.u(*i as u64 | 1 << 43).u(*k as u64);
+        }
         for e in &c.spec.elems {
             f.u(e.id).u(e.ty as u64);
         }
@@ -256,6 +356,14 @@ impl Check for C10 {
         let mut v = Vec::new();
         if c.wscript != WScript::default() {
             v.push(Case { wscript: WScript::default(), ..c.clone() });
+            if !c.wscript.chunks.is_empty() || c.wscript.rest != 0 {
+                v.push(Case { wscript: WScript { chunks: vec![], rest: 0, ..c.wscript.clone() }, ..c.clone() });
+            }
+            for i in 0..c.wscript.faults.len() {
+                let mut ws = c.wscript.clone();
+                ws.faults.remove(i);
+                v.push(Case { wscript: ws, ..c.clone() });
+            }
         }
         for ops in wcases::shrink_ops(&c.ops) {
             v.push(Case { ops, ..c.clone() });
@@ -263,16 +371,17 @@ impl Check for C10 {
         v
     }
     fn rule(&self) -> &'static str {
-        "One case = specification + valid writer call history (known- and unknown-size masters interleaved, Full masters, raw writes, explicit widths; optionally cut short and ended by flush() or just into_inner()) through a short-writing sink. Observed after every call and every partial write. Checked: final bytes independent of the partial-write schedule and never shrinking; while a known-size master is open nothing beyond the start of the outermost one is delivered; after a leaf / Full / End / raw write with no known-size master open the delivered bytes decode (reference decoder) to exactly the tags accepted so far; after flush()/into_inner() the document is complete. Non-trivial: a visibility check happened inside an open unknown-size master, or at least 3 calls. Distinct: FNV-1a fingerprint of the call history + specification."
+        "One case = specification + valid writer call history (known- and unknown-size masters interleaved, Full masters, raw writes, explicit widths; optionally cut short and ended by flush() or just into_inner()) through a short-writing sink. Observed after every call and every partial write. Checked: final bytes independent of the partial-write schedule and never shrinking; while a known-size master is open nothing beyond the start of the outermost one is delivered; after a leaf / Full / End / raw write with no known-size master open the delivered bytes decode (reference decoder) to exactly the tags accepted so far; after flush()/into_inner() the document is complete. One history in six runs through a failing sink instead (Interrupted, a hard error, Ok(0), or a failing flush at a scripted call): Interrupted must be invisible, everything before the first real failure must equal the fault-free run and be a prefix of its output, the failing call must return the sink's own error, and nothing may panic afterwards. Non-trivial: a visibility check happened inside an open unknown-size master, or at least 3 calls. Distinct: FNV-1a fingerprint of the call history + specification."
     }
     fn assumptions(&self) -> Vec<&'static str> {
         vec![
             "histories the writer rejects are out of scope here (C11/C19)",
+            "what the destination holds after a sink error is not judged: no property fixes it (the writer drops the bytes it could not hand over)",
             "what the sink holds is interpreted by ref_decode with the closing rules of C07; documents avoid the ambiguous placements the properties exclude",
             "a Start of an unknown-size master is not required to be visible immediately (the property lists element, Full and End writes)",
         ]
     }
     fn expected_probes(&self) -> Vec<&'static str> {
-        vec!["probe_observed_with_sized_master_open", "probe_sized_master_inside_unknown_master", "probe_visibility_checked", "probe_visible_inside_unknown_master", "probe_flush_in_history", "fault_partial_writes"]
+        vec!["probe_observed_with_sized_master_open", "probe_sized_master_inside_unknown_master", "probe_visibility_checked", "probe_visible_inside_unknown_master", "probe_flush_in_history", "fault_partial_writes", "fault_interrupted_writes_delivered", "fault_write_error_delivered", "fault_write_zero_delivered", "fault_flush_error_delivered", "probe_sink_error_carried", "probe_interrupted_write_retried", "probe_calls_continued_after_sink_error"]
     }
 }
